@@ -1413,6 +1413,21 @@ theorem bodyPhase_skeleton_body_readable (data nd : Bytes) (r : Req) (h : Cohere
   · simp [consistent, hb] at hc
   · simp [consistent, hb] at hc
 
+/-- **body_readable_after on the skeleton of ValidateRequest, over all its paths**: any complete path of the regenerated
+skeleton of ValidateRequest (security or not, any number of parameters, `continue`s, early returns, body validated
+or not), its calls executed by the stream models of the callees (which are paths of their own skeletons, and whose
+skeletons keep the body readable: the theorems above), started on a request with body `data`: if it can be executed,
+the next reader gets the whole body — `data`, or the re-encoded body when ValidateRequestBody ran and set defaults —
+and GetBody rewinds to it.  Full strength. -/
+theorem validateRequest_skeleton_body_readable (c : Cfg) (oc : Bytes → BodyOutcome) (data : Bytes) (r : Req)
+    (h : Coherent r data) (t : List Ev) (hp : SegPath (segs (bodyOf "ValidateRequest" c13BodyFlow) []) t)
+    (pend : List (List Scheme)) (s' : KSt) (hr : runK c oc t ⟨r, [], pend⟩ = some s') :
+    Readable s'.req data ∨ Readable s'.req (bodyExpected oc data) := by
+  rw [vsr_vr_segments.2] at hp
+  rcases vrSegs_readable c oc data _ _ hp (by simp [vrSuffixes]) _ s' h hr with ⟨hb, hg⟩ | ⟨hb, hg⟩
+  · exact Or.inl ⟨by simp [readAll, hb], hg⟩
+  · exact Or.inr ⟨by simp [readAll, hb], hg⟩
+
 end TracePart
 
 end KinModel.C13
